@@ -794,7 +794,7 @@ class Exec:
                 e["times"] = [["2018-13-45T00:00:00.000000", "x"], "nope",
                               ["2018-01-01", "2018-01-02"], [1, 2], [],
                               ["2018-01-01T00:00:00.000000"], None, {"a": 1},
-                              [None, "2018-01-01T00:00:00.000000", 3]][arg % 9]
+                              ["2018-01-01T00:00:00.000000", 7]][arg % 9]
                 label = "bad_time"
             new = json.dumps(doc).encode()
         elif how == "non_utf8":
